@@ -8,6 +8,8 @@
 #include "scen.h"
 #include <algorithm>
 #include <pthread.h>
+#include <unistd.h>
+#include <sys/wait.h>
 #include <numeric_functions.h>
 #include <polynomials_arithmetic.h>
 
@@ -35,7 +37,13 @@ static Plan gen_conc(uint64_t seed, const Op &opts) {
     // key generation, input encryption and the sequential reference run in a short-lived set-up thread that has exited before the
     // tasks start: the first thread of the process to touch the FFT layer is then NOT the longest-lived one
     p.cfg.seti("setup_thread", r.bern(opts.getd("psetup", 0.3)) ? 1 : 0);
+    // cold: this process has never touched the FFT layer when the tasks start.  Keys, inputs and the sequential reference come
+    // from a forked helper process; a loader task imports the key, then every task's first transform is the process's first one
+    // (lazily initialised shared state is initialised while other tasks are about to use it).  Needs one process per run (fork=1).
+    bool cold = opts.geti("cold") != 0;
+    if (cold) { p.cfg.seti("cold", 1).seti("loader", 1).seti("setup_thread", 0); }
     sched_to_plan(p, r, W);
+    if (cold) p.cfg.setu("sched_sites", p.cfg.getu("sched_sites") | (1u << Y_TABLEINIT));
     int maxops = (int) opts.geti("maxops", 3);
     double phist = opts.getd("phist", 0.35);
     for (int t = 0; t < W; t++) {
@@ -44,6 +52,7 @@ static Plan gen_conc(uint64_t seed, const Op &opts) {
             Op o; o.kind = "op"; o.seti("t", t);
             int hist = r.bern(phist) ? 1 + (int) r.below(H_NHIST - 1) : 0;
             if (hist == H_IMPORT && sp.n > 100) hist = H_FFTPROD;
+            if (cold && hist == H_OTHERKEY) hist = H_FFTPROD;   // (a second key would have to be generated in this process)
             o.seti("hist", hist).setu("hseed", r.next());
             if (r.bern(0.15)) {
                 o.set("k", "boot").seti("a", (int) r.below((uint64_t) nin)).seti("mu", (int32_t) r.next());
@@ -69,6 +78,7 @@ struct Shared {
     std::vector<LweSample *> inputs;
     std::string key_bytes;       // exported cloud key (for H_IMPORT / loader)
     const TFheGateBootstrappingCloudKeySet *loaded = nullptr;
+    const TFheGateBootstrappingParameterSet *params = nullptr; int n = 0;
 };
 
 static void run_history(int hist, uint64_t hseed, Shared &sh) {
@@ -125,8 +135,7 @@ struct TaskState { std::vector<LweSample *> outs; std::vector<uint64_t> hashes; 
 
 static void run_op(const Op &o, Shared &sh, TaskState &ts, const TFheGateBootstrappingCloudKeySet *ck, bool with_history) {
     if (with_history && o.geti("hist")) run_history((int) o.geti("hist"), o.getu("hseed"), sh);
-    KeyCtx *kc = sh.kc;
-    LweSample *out = new_gate_bootstrapping_ciphertext(kc->params);
+    LweSample *out = new_gate_bootstrapping_ciphertext(sh.params);
     auto pick = [&](int v) -> const LweSample * {
         if (v < 0) { int idx = -v - 1; return idx < (int) ts.outs.size() ? ts.outs[idx] : sh.inputs[0]; }
         return sh.inputs[(size_t) v % sh.inputs.size()];
@@ -138,8 +147,11 @@ static void run_op(const Op &o, Shared &sh, TaskState &ts, const TFheGateBootstr
         gate_apply(g, out, pick((int) o.geti("a")), pick((int) o.geti("b")), pick((int) o.geti("c")), 0, ck);
     }
     ts.outs.push_back(out);
-    ts.hashes.push_back(obs::hash_lwe(out, kc->n));
+    ts.hashes.push_back(obs::hash_lwe(out, sh.n));
 }
+
+static void write_all(int fd, const void *b, size_t n) { const char *q = (const char *) b; while (n) { ssize_t w = write(fd, q, n); if (w <= 0) _exit(3); q += w; n -= (size_t) w; } }
+static bool read_all(int fd, void *b, size_t n) { char *q = (char *) b; while (n) { ssize_t w = read(fd, q, n); if (w <= 0) return false; q += w; n -= (size_t) w; } return true; }
 
 struct SetupArgs { std::function<void()> fn; };
 static void *setup_main(void *v) { ((SetupArgs *) v)->fn(); return nullptr; }
@@ -161,10 +173,10 @@ static void exec_conc(const Plan &p, RunResult &r) {
         if (sp.name == "P128") s2 = ParamSpec::P80(); else if (sp.name == "P80") s2 = ParamSpec::P128();
         sh.kc2 = get_key(s2, 99);
         sh.ck = sh.kc->ck;
-        kc = sh.kc;
+        kc = sh.kc; sh.params = kc->params; sh.n = kc->n;
         lib_seed(mix64(p.seed, 0xc0c));
         for (int i = 0; i < nin; i++) { LweSample *c = new_gate_bootstrapping_ciphertext(kc->params); bootsSymEncrypt(c, i & 1, kc->sk); sh.inputs.push_back(c); }
-        bool need_bytes = p.cfg.geti("loader") != 0;
+        bool need_bytes = p.cfg.geti("loader") != 0 || p.cfg.geti("cold") != 0;
         for (auto &o : p.ops) if (o.geti("hist") == H_IMPORT) need_bytes = true;
         if (need_bytes) {
             Obj ko; ko.kind = K_CLOUDKEY; ko.p = (void *) sh.ck; ko.owned = false;
@@ -173,20 +185,62 @@ static void exec_conc(const Plan &p, RunResult &r) {
         // ---- sequential reference: one thread, nothing else running, no histories
         for (int t = 0; t < W; t++) for (auto *o : tops[(size_t) t]) run_op(*o, sh, ref[(size_t) t], sh.ck, false);
     };
-    if (p.cfg.geti("setup_thread")) {
+    bool cold = p.cfg.geti("cold") != 0;
+    TFheGateBootstrappingCloudKeySet *cold_key = nullptr;
+    if (cold) {
+        // helper process: everything that needs the secret key or the FFT layer happens there
+        int pfd[2]; if (pipe(pfd) != 0) { r.v.raise("sim-error", "SIM.pipe", "pipe failed"); return; }
+        fflush(stdout); fflush(stderr);
+        pid_t pid = fork();
+        if (pid == 0) {
+            close(pfd[0]);
+            setup();
+            uint64_t len = sh.key_bytes.size(); int32_t nn = sh.n;
+            write_all(pfd[1], &len, 8); write_all(pfd[1], sh.key_bytes.data(), len); write_all(pfd[1], &nn, 4);
+            for (auto *c : sh.inputs) { write_all(pfd[1], c->a, (size_t) nn * 4); write_all(pfd[1], &c->b, 4); write_all(pfd[1], &c->current_variance, 8); }
+            for (int t = 0; t < W; t++) { uint64_t k = ref[(size_t) t].hashes.size(); write_all(pfd[1], &k, 8); write_all(pfd[1], ref[(size_t) t].hashes.data(), k * 8); }
+            _exit(0);
+        }
+        close(pfd[1]);
+        uint64_t len = 0; int32_t nn = 0; bool ok = read_all(pfd[0], &len, 8) && len < (1ull << 32);
+        if (ok) { sh.key_bytes.resize(len); ok = read_all(pfd[0], &sh.key_bytes[0], len) && read_all(pfd[0], &nn, 4); }
+        std::vector<std::vector<int32_t>> ina; std::vector<int32_t> inb; std::vector<double> inv;
+        for (int i = 0; ok && i < nin; i++) { ina.emplace_back((size_t) nn); int32_t b = 0; double v = 0; ok = read_all(pfd[0], ina.back().data(), (size_t) nn * 4) && read_all(pfd[0], &b, 4) && read_all(pfd[0], &v, 8); inb.push_back(b); inv.push_back(v); }
+        for (int t = 0; ok && t < W; t++) { uint64_t k = 0; ok = read_all(pfd[0], &k, 8) && k < 100000; if (ok) { ref[(size_t) t].hashes.resize(k); ok = read_all(pfd[0], ref[(size_t) t].hashes.data(), k * 8); } }
+        close(pfd[0]); int st = 0; waitpid(pid, &st, 0);
+        if (!ok) { r.v.raise("sim-error", "SIM.helper", "set-up helper process failed"); return; }
+        // the loader task (first and only user of the library so far) imports the key and exits
+        SchedConfig lc = sched_from_plan(p); lc.explicit_sched = false; lc.sw.clear();
+        std::vector<std::function<void()>> lt;
+        lt.push_back([&]() {
+            Obj like; like.kind = K_CLOUDKEY; like.p = nullptr; like.owned = false;
+            WireCfg rc; rc.transport = 0; rc.rbuf = 65536; bool sf = false;
+            Obj o = import_via(like, sh.key_bytes, rc, nullptr, &sf);
+            cold_key = (TFheGateBootstrappingCloudKeySet *) o.p;
+        });
+        sched_run(lc, lt);
+        if (!cold_key) { r.v.raise("sim-error", "SIM.helper", "cloud key of the helper process does not import"); return; }
+        sh.ck = cold_key; sh.params = cold_key->params; sh.n = nn;
+        for (int i = 0; i < nin; i++) {
+            LweSample *c = new_gate_bootstrapping_ciphertext(sh.params);
+            memcpy(c->a, ina[(size_t) i].data(), (size_t) nn * 4); c->b = inb[(size_t) i]; c->current_variance = inv[(size_t) i];
+            sh.inputs.push_back(c);
+        }
+        r.probes.add("cold_process");
+    } else if (p.cfg.geti("setup_thread")) {
         SetupArgs sa{setup}; pthread_t th; pthread_attr_t at; pthread_attr_init(&at); pthread_attr_setstacksize(&at, 8 << 20);
         pthread_create(&th, &at, setup_main, &sa); pthread_join(th, nullptr); pthread_attr_destroy(&at);
         r.probes.add("setup_in_exited_thread");
     } else setup();
     uint64_t cloud0 = obs::hash_cloud(sh.ck), gen0 = obs::hash_generator();
-    std::vector<uint64_t> in0; for (auto *c : sh.inputs) in0.push_back(obs::hash_lwe(c, kc->n));
+    std::vector<uint64_t> in0; for (auto *c : sh.inputs) in0.push_back(obs::hash_lwe(c, sh.n));
     bool anykeygen = false; for (auto &o : p.ops) if (o.geti("hist") == H_KEYGEN) anykeygen = true;
     // ---- concurrent phase under the scheduler
     SchedConfig sc = sched_from_plan(p);
     bool loader = p.cfg.geti("loader") != 0, churn = p.cfg.geti("churn") != 0;
     const TFheGateBootstrappingCloudKeySet *use_ck = sh.ck;
     TFheGateBootstrappingCloudKeySet *loaded = nullptr;
-    if (loader) {
+    if (loader && !cold) {
         // the loader thread imports the key and exits; workers then evaluate with a key whose FFT rows were created by a dead thread
         SchedConfig lc = sc; lc.explicit_sched = false; lc.sw.clear();
         std::vector<std::function<void()>> lt;
@@ -232,7 +286,7 @@ static void exec_conc(const Plan &p, RunResult &r) {
     }
     if (!sr.planner_violation.empty()) r.v.raise("planner-unlocked", "C06.planner-lock", sr.planner_violation);
     if (obs::hash_cloud(sh.ck) != cloud0) r.v.raise("key-modified", "C06.shared-key", "shared cloud key modified during concurrent evaluation");
-    for (size_t i = 0; i < sh.inputs.size(); i++) if (obs::hash_lwe(sh.inputs[i], kc->n) != in0[i]) r.v.raise("input-modified", "C06.shared-input", fmt("shared input %zu modified", i));
+    for (size_t i = 0; i < sh.inputs.size(); i++) if (obs::hash_lwe(sh.inputs[i], sh.n) != in0[i]) r.v.raise("input-modified", "C06.shared-input", fmt("shared input %zu modified", i));
     if (!anykeygen && obs::hash_generator() != gen0) r.v.raise("generator-advanced", "C06.generator", "library generator advanced during evaluation-only workload");
     if (r.v.set && !p.explicit_sched) { Plan q = p; q.explicit_sched = true; q.sw = sr.trace; r.explicit_plan = q.str(); }
     // clean-up
@@ -240,6 +294,7 @@ static void exec_conc(const Plan &p, RunResult &r) {
     for (auto &ts : got) for (auto *c : ts.outs) delete_gate_bootstrapping_ciphertext(c);
     for (auto *c : sh.inputs) delete_gate_bootstrapping_ciphertext(c);
     if (loaded) delete_gate_bootstrapping_cloud_keyset(loaded);
+    if (cold_key) delete_gate_bootstrapping_cloud_keyset(cold_key);
     Hash ch; ch.str(p.cfg.gets("spec")); ch.u64((uint64_t) W); ch.u64(sr.sched_hash); for (auto &o : p.ops) ch.str(o.str());
     r.case_hash = ch.get(); r.nontrivial = sr.switches > 0;
     uint64_t hists = 0; for (auto &o : p.ops) if (o.geti("hist")) hists++;
